@@ -460,13 +460,13 @@ func stripFirstNow(s string) string {
 
 func init() {
 	register(&Property{ID: "C02", Gen: genC02, Replay: replayHist,
-		Rule: "all sequences of units over the 13-letter alphabet {tx/XID, tx/COMMIT, tx/ROLLBACK, DDL, autocommitted rows, statement DML, rotation, GTID, anonymous GTID, previous-GTIDs, heartbeat, unknown event, unknown statement} up to length 3 (quick) / 4 (thorough), random sequences up to 40, all 2^5+2^6+2^8 casings of begin/commit/rollback; oracle = Spec `expected` plus invariance under deletion of ignorable units; ignorable events (heartbeat, GTID, anonymous GTID, previous-GTIDs, STOP, USER_VAR, XA_PREPARE and unknown type codes) injected at every position of a history, also inside transactions: the deliveries must not change. Non-trivial: >= 2 units and >= 1 commit point",
+		Rule:  "all sequences of units over the 13-letter alphabet {tx/XID, tx/COMMIT, tx/ROLLBACK, DDL, autocommitted rows, statement DML, rotation, GTID, anonymous GTID, previous-GTIDs, heartbeat, unknown event, unknown statement} up to length 3 (quick) / 4 (thorough), random sequences up to 40, all 2^5+2^6+2^8 casings of begin/commit/rollback; oracle = Spec `expected` plus invariance under deletion of ignorable units; ignorable events (heartbeat, GTID, anonymous GTID, previous-GTIDs, STOP, USER_VAR, XA_PREPARE and unknown type codes) injected at every position of a history, also inside transactions: the deliveries must not change. Non-trivial: >= 2 units and >= 1 commit point",
 		Extra: extraC02})
 	register(&Property{ID: "C03", Gen: genC03, Replay: replayHist,
-		Rule: "histories with 1..4 binlog files, one in five relocated to offsets beyond 2^31 / close to 2^32 (bias), one in six started at the empty file name (oldest binlog); label chain checked; every delivered end label used as the start of a fresh parse (and, stream level, a fresh Stream) whose deliveries must equal the remaining expected transactions with identical labels. Non-trivial: >= 3 units",
+		Rule:  "histories with 1..4 binlog files, one in five relocated to offsets beyond 2^31 / close to 2^32 (bias), one in six started at the empty file name (oldest binlog); label chain checked; every delivered end label used as the start of a fresh parse (and, stream level, a fresh Stream) whose deliveries must equal the remaining expected transactions with identical labels. Non-trivial: >= 3 units",
 		Extra: func(c *Collector, r *RNG, tier string) { extraStreamC03(c, r, tier) }})
 	register(&Property{ID: "C04", Gen: genC04, Replay: replayHist,
-		Rule: "histories x 1..3 failed attempts (handler error at call j, mapper error, mapper with more/fewer columns, stream closed at packet i, cancel at packet i, invalid / RAND / INTVAR / ROWS_QUERY event or a gate-passing event of a handled type with a truncated body (ROTATE, QUERY, FDE, TABLE_MAP, rows, XID; kept when the model predicts a clean error) injected at packet i; stream level also: attempts refused / failing in the handshake / in the checksum query / reset after it) then a clean attempt; large offsets and the empty start file name as in C03; after every attempt: accepted list is a prefix of the committed list, kept position is a log boundary from which exactly the rest is served; finally accepted == committed. Non-trivial: every case",
+		Rule:  "histories x 1..3 failed attempts (handler error at call j, mapper error, mapper with more/fewer columns, stream closed at packet i, cancel at packet i, invalid / RAND / INTVAR / ROWS_QUERY event or a gate-passing event of a handled type with a truncated body (ROTATE, QUERY, FDE, TABLE_MAP, rows, XID; kept when the model predicts a clean error) injected at packet i; stream level also: attempts refused / failing in the handshake / in the checksum query / reset after it) then a clean attempt; large offsets and the empty start file name as in C03; after every attempt: accepted list is a prefix of the committed list, kept position is a log boundary from which exactly the rest is served; finally accepted == committed. Non-trivial: every case",
 		Extra: func(c *Collector, r *RNG, tier string) { extraStreamC04(c, r, tier) }})
 }
 
